@@ -33,7 +33,18 @@ def strategy(tier):
     # the domain of the behavioural checks, inside C06's (totality, marker, exact fallback)
     ctx_any = st.tuples(gen_ssb.free_graphs(), st.lists(st.tuples(st.integers(0, 9), st.integers(0, 40), st.sampled_from(["lives", "object", "performer"]), st.integers(0, 300)), min_size=1, max_size=2)).map(
         lambda t: dict(t[0], insert_ctx=[list(x) for x in t[1]]))
-    return weighted((6, decomp.input_strategy(w1=1, w2=2, w3=4)), (1, ctx_any))
+    # sizes: a straight run of thousands of ops inside a switch case that falls into the next case's block (the
+    # structuring helpers recurse once per op walked; beyond the interpreter's recursion limit they must still end in the
+    # fallback, not in an exception)
+    long_run = st.tuples(st.sampled_from([3000, 9000, 10050, 10500, 12000]), st.integers(0, 2)).map(lambda t: _long_run_case(*t))
+    return weighted((60, decomp.input_strategy(w1=1, w2=2, w3=4)), (10, ctx_any), (1, long_run))
+
+
+def _long_run_case(n, tail):
+    ops = [["Switch", [{"c": "$V_L"}], None], ["Case", [1], [0, 4]], ["Case", [2], [0, 4 + n]], ["Jump", [], [0, 4 + n + 2]]]
+    ops += [[f"s_{i}", [], None] for i in range(n)]
+    ops += [["bar", [], None], ["Jump", [], [0, 4 + n + 2]], [["Return", "End", "Hold"][tail], [], None]]
+    return {"stratum": 3, "routines": [{"type": "GENERIC", "target": None, "target_name": None, "name": None, "ops": ops}], "gaps": [0], "first_offset": 0}
 
 
 def evaluate(case, stt):
